@@ -173,9 +173,10 @@ pub(crate) trait CKKSAddDefault<BE: Backend> {
         Scratch<BE>: ScratchAvailable + ScratchTakeCore<BE>,
     {
         let offset = dst.offset_unary(a);
+        let log_budget = checked_log_budget_sub("add_pt_vec_znx", a.log_budget(), offset)?;
         self.glwe_lsh(dst, a, offset, scratch);
         dst.meta = a.meta();
-        dst.meta.log_budget = checked_log_budget_sub("add_pt_vec_znx", a.log_budget(), offset)?;
+        dst.meta.log_budget = log_budget;
         self.ckks_add_pt_vec_znx_assign_unsafe_default(dst, pt_znx, scratch)?;
         Ok(())
     }
@@ -319,9 +320,10 @@ pub(crate) trait CKKSAddDefault<BE: Backend> {
         Scratch<BE>: ScratchAvailable + ScratchTakeCore<BE>,
     {
         let offset = dst.offset_unary(a);
+        let log_budget = checked_log_budget_sub("add_const_znx", a.log_budget(), offset)?;
         self.glwe_lsh(dst, a, offset, scratch);
         dst.meta = a.meta();
-        dst.meta.log_budget = checked_log_budget_sub("add_const_znx", a.log_budget(), offset)?;
+        dst.meta.log_budget = log_budget;
         self.ckks_add_pt_const_znx_assign_unsafe_default(dst, cst_znx, scratch)
     }
 
@@ -409,14 +411,15 @@ pub(crate) trait CKKSAddDefault<BE: Backend> {
         CKKSPlaintextCstRnx<F>: CKKSConstPlaintextConversion,
     {
         let offset = dst.offset_unary(a);
+        let log_budget = checked_log_budget_sub("add_const_rnx", a.log_budget(), offset)?;
         if cst_rnx.re().is_none() && cst_rnx.im().is_none() {
             self.glwe_lsh(dst, a, offset, scratch);
             dst.meta = a.meta();
-            dst.meta.log_budget = checked_log_budget_sub("add_const_rnx", a.log_budget(), offset)?;
+            dst.meta.log_budget = log_budget;
             return Ok(());
         }
 
-        let res_log_budget = checked_log_budget_sub("add_const_rnx", a.log_budget(), offset)?;
+        let res_log_budget = log_budget;
         let cst_znx = cst_rnx.to_znx_at_k(
             dst.base2k(),
             res_log_budget
